@@ -115,6 +115,9 @@ type kdfAlgorithm byte
 type ecdhKdf struct {
 	KdfHash kdfHashFunction
 	KdfAlgo kdfAlgorithm
+	// extra holds octets of the KDF parameters field beyond the three that RFC 6637 defines. They are part of the
+	// key packet, so they are written back unchanged: fingerprint and signature checks are over the packet as it is.
+	extra []byte
 }
 
 func (f *ecdhKdf) parse(r io.Reader) (err error) {
@@ -133,6 +136,7 @@ func (f *ecdhKdf) parse(r io.Reader) (err error) {
 	reserved := int(buf[0])
 	f.KdfHash = kdfHashFunction(buf[1])
 	f.KdfAlgo = kdfAlgorithm(buf[2])
+	f.extra = buf[3:]
 	if reserved != 0x01 {
 		return errors.UnsupportedError("Unsupported KDF reserved field: " + strconv.Itoa(reserved))
 	}
@@ -142,16 +146,16 @@ func (f *ecdhKdf) parse(r io.Reader) (err error) {
 func (f *ecdhKdf) serialize(w io.Writer) (err error) {
 	buf := make([]byte, 4)
 	// See RFC 6637, Section 9, Algorithm-Specific Fields for ECDH keys.
-	buf[0] = byte(0x03) // Length of the following fields
-	buf[1] = byte(0x01) // Reserved for future extensions, must be 1 for now
+	buf[0] = byte(0x03 + len(f.extra)) // Length of the following fields
+	buf[1] = byte(0x01)                // Reserved for future extensions, must be 1 for now
 	buf[2] = byte(f.KdfHash)
 	buf[3] = byte(f.KdfAlgo)
-	_, err = w.Write(buf[:])
+	_, err = w.Write(append(buf, f.extra...))
 	return
 }
 
 func (f *ecdhKdf) byteLen() int {
-	return 4
+	return 4 + len(f.extra)
 }
 
 type eddsaKey struct {
